@@ -9,12 +9,13 @@ from vlib import rig, util
 from vlib.ctx import validate_trace
 
 
-def status_file_rows(c):
+def status_file_rows(c, level=None):
+    """level: the operator's fileLogLevel (what is LOGGED about a denial may depend on it, what is PUBLISHED does not)"""
     thorough = c.tier == "thorough"
-    name = "c11_status"
+    name = "c11_status" + (level or "")
     d0 = os.path.join(util.RUNDIR, name)
     sdir = os.path.join(d0, "status")
-    n = 60 if not thorough else 400
+    n = (60 if not thorough else 400) if level is None else 12
     doc = {"defaultAccess": "deny", "mode": "enforce", "id": "big",
            "rules": {"privileges": [{"name": "p%d" % i, "path": "/never/%d" % i} for i in range(3000)],
                      "roles": [], "identities": [], "roleAssignments": []}}
@@ -26,7 +27,10 @@ def status_file_rows(c):
                    "headers": [["Host", "h"]]},
                   {"op": "close", "conn": cn},
                   {"op": "snapshot", "tag": "pub%d" % i, "status_file": os.path.join(sdir, "status.json")}]
-    ev, d, _ = rig.run_rig({"steps": steps, "status_task": {"interval_ms": 1, "dir": sdir}, "drain_ms": 200}, name, timeout=600)
+    script = {"steps": steps, "status_task": {"interval_ms": 1, "dir": sdir}, "drain_ms": 200}
+    if level:
+        script["agent_config"] = {"fileLogLevel": level}
+    ev, d, _ = rig.run_rig(script, name, timeout=600)
     rows, denials = [], 0
     resp = {e["id"]: e for e in ev if e["e"] == "Response"}
     for e in ev:
@@ -184,6 +188,24 @@ def run(c):
             raise util.ToolError("a stale status file (%s) did not reproduce in three re-executions; not believed" % bad)
         c.violation("a denial that was already answered is missing from the status file published afterwards: %s" % bad,
                     {"broken": "P_C11_PublishedInStatusFile"}, {"first": bad})
+
+
+    # what is published does not depend on what the operator chose to have LOGGED (fileLogLevel Warn / Error)
+    for level in ("Warn", "Error"):
+        lrows = [dict(r, id="%s-%s" % (level, r["id"])) for r in status_file_rows(c, level)]
+        ok, why, res = validate_trace(c, "ProxyTrace", proxylib.write_cfg("C11", ["P_C11_PublishedInStatusFile"], "pubL"), lrows,
+                                      "c11_pub_" + level, count=1, timeout=300)
+        c.extra.setdefault("status_file_publications_by_log_level", {})[level] = len(lrows)
+        if not ok:
+            bad = next((r for r in lrows if r["inFile"] != r["denials"]), {})
+            for attempt in range(3):
+                if not all(r["inFile"] == r["denials"] for r in status_file_rows(c, level)):
+                    break
+            else:
+                raise util.ToolError("a stale status file at log level %s (%s) did not reproduce in three re-executions" % (level, bad))
+            c.violation("with fileLogLevel %s a denial that was already answered is missing from the status file published "
+                        "afterwards: %s" % (level, bad), {"broken": "P_C11_PublishedInStatusFile", "scenario": "log-level"}, {"first": bad})
+            break
 
 
 def replay(c, path):
